@@ -1,9 +1,10 @@
 """Which harness decides which property (DESIGN.md section 4).  tier: 'quick' harnesses run in both tiers."""
 
 UNITS = {
-    'k_perm': dict(cpp='harness/k_perm.cpp'),
-    'k_version': dict(cpp='harness/k_version.cpp'),
+    'k_perm': dict(cpp='harness/k_perm.cpp', all_hooks=True),
+    'k_version': dict(cpp='harness/k_version.cpp', all_hooks=True),
     'k_compare': dict(cpp='harness/k_compare.cpp'),
+    'n_t1': dict(cpp='harness/n_t1.cpp', cdefs=('YK_VAL_CAP=16',)),
     'k_value': dict(cpp='harness/k_value.cpp', cdefs=('YK_VAL_CAP=48',)),
 }
 
